@@ -74,7 +74,7 @@ static void run_par(const std::string& cid, Toks& t, bool wide) {
         o << " " << S->off_proc_column_map[i] << " " << (i < (int)off_states.size() ? off_states[i] : -99);
     emit_all(cid, "PST", o.str());
     delete S; if (A_wide) delete A_wide;      // (a leaked matrix keeps its node communicators: tens of thousands of cases exhaust MPI's ids)
-    { std::ostringstream q; q << drain_stray(); emit_all(cid, "STRAY", q.str()); }     // messages sent but never received
+
 }
 
 static void run_case(const std::string& cid, Toks& t) {
